@@ -247,7 +247,9 @@ def _make_public_contract(fn, name):
                         # r x p about the coordinate origin: the natural scale of an element is |R| sqrt(2T), so the
                         # rounding noise of a vanishing element grows with the distance of the shells from the origin
                         try:
-                            floor += 1e-10 * np.sqrt(3.0 * amax) * max(float(np.abs(sh.coord).max()) for sh in _ARGS[0])
+                            # (1e-9 of that natural scale, the bound the precise check of C08 itself applies: the always-on
+                            # monitor must never be stricter than the check that owns the statement)
+                            floor += 1e-9 * np.sqrt(3.0 * amax) * max(float(np.linalg.norm(sh.coord)) for sh in _ARGS[0])
                         except Exception:
                             pass
                     if name in SYMMETRIC:
